@@ -51,6 +51,34 @@ def run(tier, seed):
             ck.finding("linear:%s:logabsdet-not-log-det-W" % name, "slogdet %r vs logabsdet() %r" % (float(torch.linalg.slogdet(W)[1]), float(lad)), case)
         if float((ly - lad).abs().max()) > 1e-10 or float((li + lad).abs().max()) > 1e-10:
             ck.finding("linear:%s:pass-logabsdet-differs-from-accessor" % name, "forward %r inverse %r accessor %r" % (ly[0].item(), li[0].item(), float(lad)), case)
+        # the combined accessors and the cached passes describe the same map
+        for acc, refm in (("weight_and_logabsdet", W), ("weight_inverse_and_logabsdet", Wi)):
+            if hasattr(t, acc):
+                a = attempt(getattr(t, acc))
+                if a[0] != "ok":
+                    ck.finding("linear:%s:%s-raises" % (name, acc), "%s %s" % (a[1], a[2]), case)
+                else:
+                    if float((a[1][0] - refm).abs().max()) > tol:
+                        ck.finding("linear:%s:%s-matrix-differs" % (name, acc), "max err %g" % float((a[1][0] - refm).abs().max()), case)
+                    if abs(float(a[1][1]) - float(lad)) > 1e-9 * max(1.0, nfeat):
+                        ck.finding("linear:%s:%s-logabsdet-differs" % (name, acc),
+                                   "%s() returns logabsdet %r, logabsdet() %r" % (acc, float(a[1][1]), float(lad)), case)
+        if hasattr(t, "use_cache"):
+            was_training, was_cache = t.training, t.using_cache
+            for order in (("forward", "inverse"), ("inverse", "forward")):
+                t.eval(); t.use_cache(True); t.cache.invalidate()
+                for direction in order:
+                    with torch.no_grad():
+                        c = attempt(t.forward, x) if direction == "forward" else attempt(t.inverse, y)
+                    want = (y, ly) if direction == "forward" else (x, -ly)
+                    if c[0] != "ok":
+                        ck.finding("linear:%s:cached-%s-raises" % (name, direction), "%s %s" % (c[1], c[2]), case)
+                    elif float((c[1][0] - want[0]).abs().max()) > tol * (1 + float(x.abs().max())) or \
+                            float((c[1][1] - want[1]).abs().max()) > 1e-9 * max(1.0, nfeat):
+                        ck.finding("linear:%s:cached-%s-differs-from-uncached" % (name, direction),
+                                   "order %s: outputs differ by %g, logabsdet %r vs %r" % (
+                                       order, float((c[1][0] - want[0]).abs().max()), float(c[1][1][0]), float(want[1][0])), case)
+            t.cache.invalidate(); t.use_cache(was_cache); t.train(was_training)
         back = t.inverse(y)[0]
         if float((back - x).abs().max()) > tol * (1 + float(x.abs().max())):
             ck.finding("linear:%s:inverse-does-not-undo-forward" % name, "max err %g" % float((back - x).abs().max()), case)
